@@ -1259,12 +1259,12 @@ func main() {
 	writeIfChanged(filepath.Join(*out, "GenWaitSites.v"), w.Bytes())
 	fmt.Printf("go2v: GenWaitSites.v %d wait sites in %d functions\n", nw, nf)
 
-	// GenLockSites.v (C05): lock programs, mutex table, lock acquisitions of the call path (locksites.go)
+	// GenLockProgs.v (C05): lock programs, mutex table, lock acquisitions of the call path (lockprogs.go)
 	w.Reset()
 	fmt.Fprintf(&w, header, *repo)
-	nlp, nlm, nls := root.lockSitesSafe(&w, *repo)
-	writeIfChanged(filepath.Join(*out, "GenLockSites.v"), w.Bytes())
-	fmt.Printf("go2v: GenLockSites.v %d lock programs, %d mutexes, %d lock acquisitions on the caller's path\n", nlp, nlm, nls)
+	nlp, nlm, nls := root.lockProgsSafe(&w, *repo)
+	writeIfChanged(filepath.Join(*out, "GenLockProgs.v"), w.Bytes())
+	fmt.Printf("go2v: GenLockProgs.v %d lock programs, %d mutexes, %d lock acquisitions on the caller's path\n", nlp, nlm, nls)
 
 	// GenFrameSites.v (C01): NewFrame call sites, FramePool implementations (framesites.go)
 	w.Reset()
